@@ -4,7 +4,31 @@ import json, os
 VERIF = os.path.dirname(os.path.dirname(os.path.abspath(__file__)))
 ALL = [f"C{k:02d}" for k in range(1, 21)]
 
+def _c(category, text, ref, note, technique, engine="hgdrive"):
+    return dict(category=category, text=text, design_ref=ref, note=note, technique=technique, engine=engine)
+
+
+TRUST = "Trusts the g++-12 -O1 build of /repo's working tree with harness-side shims (chrono I/O, simdjson utf8, named time zones), truthful harness nodes/observer, and the stated oracle."
+
 CHECKS = {
+    "C01": _c("exploration",
+              "Trace monitors over generated programs: (static) every compiled edge has source<target except the declared rank-free feedback slot, every program-level dependency (direct, structural TSL, across nested boundaries, explicit rank dependencies, delayed bindings) has index(producer)<index(consumer) in the common graph; (dynamic) node indices strictly increase inside every graph-evaluation bracket of the LifecycleObserver stream (at most once, forward scan), child graphs evaluate only inside their owner's node bracket at the owner's time, same-cycle producer runs precede consumer runs; programs with a cycle closed through a delayed binding or rank-dependency pair must be rejected at finish(), the feedback-cut twin must build.",
+              "DESIGN.md section 3 C01", TRUST, "runtime monitoring: lifecycle-observer ordering monitor + compiled-artefact check over generated programs"),
+    "C02": _c("exploration",
+              "Every wake-up request logged by instrumented nodes (source scripts scheduled from start and from eval, tickers, delay timers, scheduler scripts with tags/cancels, feedback, timers inside nested children) must have a root cycle at exactly its time that evaluates the requesting node; the root cycle sequence must equal the model's (no drop, shift, phantom), be strictly increasing inside [start,end); after each cycle next_scheduled_time() must equal the model's earliest pending request and the minimum over per-node slots.",
+              "DESIGN.md section 3 C02", TRUST + " SchedModel is the pending-set specification.", "runtime monitoring: request/cycle trace checker + reference model of pending wake-ups"),
+    "C06": _c("exploration",
+              "Metamorphic: one dataflow wired under several admissible statement orders (incl. consumer-before-producer via delayed bindings) must give identical user-code runs and streams (pairwise and vs the model); exact duplicate sub-expressions may share (instance count 1 or 2, outputs unchanged), wirings differing in exactly one input or one scalar and duplicated sinks must stay distinct (instance counts from start logs).",
+              "DESIGN.md section 3 C06", TRUST, "runtime monitoring: metamorphic differential over wiring orders + instance counting"),
+    "C08": _c("exploration",
+              "Sequence oracle on recorded streams: for every feedback edge the reader stream must equal [(start, init)] ++ [(t+1, v) for each producer tick (t, v) with t+1<end] - no loss, duplicate, reorder, same-cycle delivery; plus model equality of all runs and of the cycle set (passive-reader loops become quiescent).",
+              "DESIGN.md section 3 C08", TRUST, "runtime monitoring: offline stream checker (shift-by-one-step) + reference model"),
+    "C09": _c("exploration",
+              "Differential: each host program is run with every call site inlined, every call site nested, a random mix, and nested one level deeper; all variants must produce identical user-code runs and streams (pairwise and vs the flattening model); every child graph evaluation must be at its parent's current time inside the parent's bracket; timers inside idle children must fire at their time.",
+              "DESIGN.md section 3 C09", TRUST, "runtime monitoring: differential inline/nested execution + child-clock trace monitor"),
+    "C18": _c("exploration",
+              "(a) exhaustive operation sequences (length<=3 quick, <=4 thorough, alphabet of 28 ops) plus random long sequences on the tree's NodeScheduler over a bare NodeSchedulerState: after every op all query answers equal the pending-set specification; (b) scheduler-script nodes in graphs interleaved with input-driven evaluations: wake-up times and in-node query answers equal the model.",
+              "DESIGN.md section 3 C18", TRUST + " SchedModel is the specification.", "runtime monitoring: exhaustive small-scope state-machine conformance + in-graph trace vs model"),
     "C03": dict(
         category="exploration",
         text=("Model equality on generated executions: for thousands of random dataflow programs x tick histories the set of "
